@@ -23,7 +23,7 @@ from mc import core
 # quick: a three level chain a / a.a / a.a.a whose segment name repeats (a node must still be named by its full path), the sibling a.b,
 # dotted variants, empty segments, the built-in share `time` and node `meta`
 PATHS_QUICK = ["a", "a.b", "a.a", "a.a.a", "b", ".a", "a.", ".a.b.", "a..b", ".", "", "time", "time.t", "meta.m"]
-PATHS_MORE = ["a.b.c", "a.c", "a.b.a", "a.b.a.b", "b.c", "..a", "a..b.c", "a.b..", "b..", "..", "meta"]
+PATHS_MORE = ["a.b.c", "a.c", "a.b.a", "a.b.a.b", "..a", "a..b.c", "meta"]
 VERBS = ["create", "createNode", "add", "addNode", "change"]
 
 
